@@ -588,6 +588,17 @@ def printer_programs():
                               For("i", Range(I(0), I(2), True), Block([Print(V("i"))])), For("c", S("ab"), Block([Print(V("c"))])),
                               Let("o", Obj(n=I(1), l=List(I(1)))), Expr(Asg(Mem(V("o"), "n"), I(5), "*=")), Expr(Asg(Idx(Mem(V("o"), "l"), I(0)), I(7))), Print(V("o")),
                               Let("g", FnLit(["a", "b"], Block([Ret(Bin("+", V("a"), MCall(V("b"), "len")))]), "int", ["int", "str"])), Print(CallV(V("g"), I(1), S("xy")))]))})
+    # block-like expressions as statements: the `;` after them separates them from what follows (`-a`, `(..)`, `[..]`)
+    # and decides between statement and block value
+    add("semicolons", {
+        "bump": Fn(["k"], Block([Expr(Asg(V("cnt"), V("k"), "+="))], V("k")), "int"),
+        "f": Fn(["a"], Block([Expr(If(Bin(">", V("a"), I(5)), Block([], Call("bump", I(1))), Block([], Call("bump", I(2)))))], Un("-", V("a"))), "int"),
+        "g": Fn(["a"], Block([Expr(Match(V("a"), [([I(1)], S("one"))], S("other"))), Expr(Block([], List(I(1))))], List(V("a"))), "[int]"),
+        "h": Fn(["a"], Block([Expr(Try(Block([], V("a")), "e", Block([], I(0)))), Expr(If(B(True), Block([], S("x")), Block([], S("y"))))], Bin("+", V("a"), I(1))), "int"),
+        "k": Fn(["a"], Block([Let("i", I(0)), While(Bin("<", V("i"), V("a")), Block([Expr(Asg(V("i"), I(1), "+=")), Expr(If(B(True), Block([], S("v")), Block([], S("w"))))])),
+                               Loop(Block([Expr(Block([], I(3))), Break()]))], V("i")), "int"),
+        "main": Fn([], Block([Print(Call("f", I(9)), Call("f", I(1)), V("cnt"), Call("g", I(1)), Call("h", I(4)), Call("k", I(2))),
+                              Expr(If(B(True), Block([], I(1)), Block([], I(2))))]))}, globs=[("cnt", I(0))])
     add("types", {
         "ids": Fn(["a", "b", "c", "d", "e"], Block([Print(V("a"), V("b"), V("c"), V("d"), CallV(V("e"), I(1)))]), "null",
                   ["[[int]]", "?[str]", "{ x: int, y: ?str }", "{ ? }", "fn(v: int) -> [int]"]),
